@@ -8,11 +8,18 @@ import (
 	"strings"
 	"time"
 
+	"sync"
+
+	"github.com/emersion/go-message/textproto"
 	"github.com/emersion/go-msgauth/authres"
 	"github.com/foxcpp/go-mockdns"
+	"github.com/foxcpp/maddy/framework/buffer"
 	"github.com/foxcpp/maddy/framework/config"
+	modconfig "github.com/foxcpp/maddy/framework/config/module"
+	"github.com/foxcpp/maddy/framework/exterrors"
 	"github.com/foxcpp/maddy/framework/log"
 	"github.com/foxcpp/maddy/framework/module"
+	"github.com/foxcpp/maddy/internal/check"
 	smtpendp "github.com/foxcpp/maddy/internal/endpoint/smtp"
 	"github.com/foxcpp/maddy/internal/verifsim/actors"
 	"github.com/foxcpp/maddy/internal/verifsim/harness"
@@ -91,9 +98,63 @@ type c06World struct {
 	twoCl     bool          // the transactions come from two concurrent sessions
 	splitChk  bool          // global checks configured by separate `check` directives
 	shareBias bool
+	useL      bool   // the real stateless check L is configured (global)
+	lAction   string // its fail_action: reject, quarantine, ignore
 }
 
-var c06Checks = []string{"G", "G2", "X", "S", "S2", "D1", "D2"}
+var c06Checks = []string{"G", "G2", "X", "S", "S2", "D1", "D2", "L"}
+
+// Check L is a *real* stateless check (internal/check/stateless_check.go with
+// its configurable fail_action from framework/config/module) around scripted
+// per-stage functions: they decide pass/fail from the plan of the message whose
+// metadata the framework hands them, and log under that message.
+var (
+	statelessOnce sync.Once
+	curC06        *c06World
+)
+
+func registerStateless() {
+	statelessOnce.Do(func() {
+		check.RegisterStatelessCheck("verif_stateless", modconfig.FailAction{Reject: true},
+			func(cc check.StatelessCheckContext) module.CheckResult { return curC06.stateless(cc, "conn", "") },
+			func(cc check.StatelessCheckContext, from string) module.CheckResult {
+				return curC06.stateless(cc, "sender", from)
+			},
+			func(cc check.StatelessCheckContext, rcpt string) module.CheckResult {
+				return curC06.stateless(cc, "rcpt", rcpt)
+			},
+			func(cc check.StatelessCheckContext, _ textproto.Header, _ buffer.Buffer) module.CheckResult {
+				return curC06.stateless(cc, "body", "")
+			})
+	})
+}
+
+func (w *c06World) stateless(cc check.StatelessCheckContext, stage, arg string) module.CheckResult {
+	simrt.Point("chk:L", stage+":"+arg)
+	tag := cc.MsgMeta.OriginalFrom
+	v := actors.VNone
+	if tx := w.txByFrom[tag]; tx != nil {
+		p := tx.plans["L"]
+		switch stage {
+		case "conn":
+			v = p.Conn
+		case "sender":
+			v = p.Sender
+		case "rcpt":
+			v = p.Rcpt[arg]
+		case "body":
+			v = p.Body
+		}
+	}
+	if w.noIgnore && v == actors.VIgnore {
+		v = actors.VNone
+	}
+	w.chk["L"].Log(actors.CheckCall{StateN: 1, Tag: tag, MsgID: cc.MsgMeta.ID, Stage: stage, Arg: arg, Verdict: v})
+	if v == actors.VNone {
+		return module.CheckResult{}
+	}
+	return module.CheckResult{Reason: &exterrors.SMTPError{Code: 550, EnhancedCode: exterrors.EnhancedCode{5, 7, 1}, Message: "stateless check says no (нет) at " + stage, CheckName: "L"}}
+}
 
 func (w *c06World) genScenario() {
 	s := w.s
@@ -103,6 +164,8 @@ func (w *c06World) genScenario() {
 	w.xGlobal = s.T.Choose(st, 2) == 1
 	w.xInD1 = s.T.Choose(st, 2) == 1
 	w.partial = map[string]bool{"t1": s.T.Choose(st, 2) == 1, "t2": s.T.Choose(st, 2) == 1}
+	w.useL = s.T.Choose(st, 2) == 1
+	w.lAction = []string{"reject", "quarantine", "ignore"}[s.T.Choose(st, 3)]
 	w.g2 = s.T.Choose(st, 2) == 1
 	w.twoCl = s.T.Choose(st, 2) == 1
 	w.splitChk = s.T.Choose(st, 2) == 1
@@ -167,6 +230,19 @@ func (w *c06World) build06() error {
 			return &actors.CheckPlan{}
 		}
 		w.chk[n] = c
+		if n == "L" {
+			// the instance named L is the real stateless check; the
+			// ScriptedCheck object only keeps its call log
+			registerStateless()
+			curC06 = w
+			mod, err := module.Get("verif_stateless")("verif_stateless", "L", nil, nil)
+			if err != nil {
+				return err
+			}
+			module.RegisterInstance(mod, config.NewMap(nil, config.Node{Children: []config.Node{node("fail_action", w.lAction)}}))
+			delete(module.Initialized, n)
+			continue
+		}
 		module.RegisterInstance(c, nil)
 		delete(module.Initialized, n)
 	}
@@ -176,6 +252,9 @@ func (w *c06World) build06() error {
 	}
 	if w.xGlobal {
 		global = append(global, node("&X"))
+	}
+	if w.useL {
+		global = append(global, node("&L"))
 	}
 	d1 := []config.Node{node("&D1")}
 	if w.xInD1 {
@@ -270,11 +349,26 @@ func (w *c06World) genTxs() {
 				// recipient-stage verdicts only for recipients the check is
 				// responsible for (replays to out-of-scope recipients are
 				// outside the statement)
-				inScope := n == "G" || n == "G2" || n == "S" || n == "S2" || (n == "X" && w.xGlobal) ||
+				inScope := n == "G" || n == "G2" || n == "L" || n == "S" || n == "S2" || (n == "X" && w.xGlobal) ||
 					((n == "D1" || (n == "X" && w.xInD1)) && rcptDomain(r) == "a.example") ||
 					(n == "D2" && rcptDomain(r) == "b.example")
 				if inScope {
 					p.Rcpt[r] = w.genVerdict("rcpt")
+				}
+			}
+			if n == "L" {
+				// a stateless check only says pass/fail; the verdict is its
+				// configured fail_action
+				lv := map[string]actors.Verdict{"reject": actors.VRejectPerm, "quarantine": actors.VQuarantine, "ignore": actors.VIgnore}[w.lAction]
+				fix := func(v actors.Verdict) actors.Verdict {
+					if v != actors.VNone {
+						return lv
+					}
+					return v
+				}
+				p.Conn, p.Sender, p.Body = fix(p.Conn), fix(p.Sender), fix(p.Body)
+				for k, v := range p.Rcpt {
+					p.Rcpt[k] = fix(v)
 				}
 			}
 			ctx.plans[n] = p
@@ -340,6 +434,9 @@ func (w *c06World) model(tx *c06Tx) c06Expect {
 	}
 	if w.xGlobal {
 		globals = append(globals, "X")
+	}
+	if w.useL {
+		globals = append(globals, "L")
 	}
 	var source []string
 	if fromOrigin {
@@ -634,7 +731,7 @@ func RunC06(s *simrt.Sim, a *harness.Args, r *harness.Result) {
 			}
 		}
 	}
-	r.Shape = fmt.Sprintf("lmtp=%v defer=%v xg=%v xd=%v g2=%v 2cl=%v dmarc=%v/%v|%s", w.lmtp, w.deferRj, w.xGlobal, w.xInD1, w.g2, w.twoCl, w.dmarc, w.dnsDelay, w.planShape())
+	r.Shape = fmt.Sprintf("lmtp=%v defer=%v xg=%v xd=%v g2=%v 2cl=%v L=%v/%s dmarc=%v/%v|%s", w.lmtp, w.deferRj, w.xGlobal, w.xInD1, w.g2, w.twoCl, w.useL, w.lAction, w.dmarc, w.dnsDelay, w.planShape())
 	st := s.Stats()
 	nf := 0
 	for k, v := range st {
@@ -798,7 +895,7 @@ func (w *c06World) stageCounts(tx *c06Tx, accepted bool, path string) {
 			continue
 		}
 		scopeDom := map[string]string{"D1": "a.example", "D2": "b.example"}[n]
-		applicable := n == "G" || (n == "G2" && w.g2) || (n == "X" && (w.xGlobal || (w.xInD1 && fromOrigin))) || (fromOrigin && (n == "S" || n == "D1" || n == "D2")) ||
+		applicable := n == "G" || (n == "G2" && w.g2) || (n == "L" && w.useL) || (n == "X" && (w.xGlobal || (w.xInD1 && fromOrigin))) || (fromOrigin && (n == "S" || n == "D1" || n == "D2")) ||
 			(n == "S2" && strings.HasSuffix(tx.From, "@other.example"))
 		if n == "X" && !w.xGlobal {
 			scopeDom = "a.example"
